@@ -699,6 +699,11 @@ def _check_main(case, ctx):
 # ------------------------------------------------------------------ oracle entry point
 def check_case(case, ctx):
     k = case['k']
+    m = case.get('model') or (case.get('base') or {}).get('model')
+    if isinstance(m, dict) and m.get('params'):
+        names = [p['name'] for p in m['params']]
+        if len(set(names)) != len(names):
+            raise Discard()     # domain guard (replayed cases): the model itself has one @name line per parameter
     ctx.label('kind_' + k)
     if k == 'text':
         x = case['x']
